@@ -363,32 +363,33 @@ Definition erase (s : st) (st_ en : Z * Z) : result st :=
 (* running values of sgi_to_attrspec's loop: fg, bg, colors, the 'attributes' set, and the two
    side effects on self.charset / self.modes.display_ctrl *)
 Record sgi_t := mkSgi { g_fg : oz; g_bg : oz; g_colors : Z; g_bold : bool; g_ul : bool; g_blink : bool; g_so : bool;
-                        g_cs : charset_t; g_dc : bool }.
+                        g_cs : charset_t; g_dc : bool;
+                        g_fgi : bool; g_bgi : bool }.     (* fg_is_index, bg_is_index *)
 Definition sgi_step1 (a : Z) (g : sgi_t) : sgi_t :=
-  let '(mkSgi fg bg colors bold ul blink so cs dc) := g in
-  if (30 <=? a) && (a <=? 37) then mkSgi (Some (a - 30)) bg (Z.max 16 colors) bold ul blink so cs dc
-  else if (40 <=? a) && (a <=? 47) then mkSgi fg (Some (a - 40)) (Z.max 16 colors) bold ul blink so cs dc
-  else if (90 <=? a) && (a <=? 97) then mkSgi (Some (a - 90 + 8)) bg (Z.max 16 colors) bold ul blink so cs dc
-  else if (100 <=? a) && (a <=? 107) then mkSgi fg (Some (a - 100 + 8)) (Z.max 16 colors) bold ul blink so cs dc
-  else if a =? 39 then mkSgi None bg colors bold ul blink so cs dc
-  else if a =? 49 then mkSgi fg None colors bold ul blink so cs dc
+  let '(mkSgi fg bg colors bold ul blink so cs dc fi bi) := g in
+  if (30 <=? a) && (a <=? 37) then mkSgi (Some (a - 30)) bg (Z.max 16 colors) bold ul blink so cs dc true bi
+  else if (40 <=? a) && (a <=? 47) then mkSgi fg (Some (a - 40)) (Z.max 16 colors) bold ul blink so cs dc fi true
+  else if (90 <=? a) && (a <=? 97) then mkSgi (Some (a - 90 + 8)) bg (Z.max 16 colors) bold ul blink so cs dc true bi
+  else if (100 <=? a) && (a <=? 107) then mkSgi fg (Some (a - 100 + 8)) (Z.max 16 colors) bold ul blink so cs dc fi true
+  else if a =? 39 then mkSgi None bg colors bold ul blink so cs dc fi bi
+  else if a =? 49 then mkSgi fg None colors bold ul blink so cs dc fi bi
   else if a =? 10 then (* charset.reset_sgr_ibmpc(); display_ctrl = False *)
-    mkSgi fg bg colors bold ul blink so (cs_activate (set_cs_sgr cs false) (cs_active cs)) false
-  else if (a =? 11) || (a =? 12) then mkSgi fg bg colors bold ul blink so (set_cs_sgr cs true) true
-  else if a =? 1 then mkSgi fg bg colors true ul blink so cs dc
-  else if a =? 4 then mkSgi fg bg colors bold true blink so cs dc
-  else if a =? 5 then mkSgi fg bg colors bold ul true so cs dc
-  else if a =? 7 then mkSgi fg bg colors bold ul blink true cs dc
-  else if a =? 24 then mkSgi fg bg colors bold false blink so cs dc
-  else if a =? 25 then mkSgi fg bg colors bold ul false so cs dc
-  else if a =? 27 then mkSgi fg bg colors bold ul blink false cs dc
-  else if a =? 0 then mkSgi None None colors false false false false cs dc
+    mkSgi fg bg colors bold ul blink so (cs_activate (set_cs_sgr cs false) (cs_active cs)) false fi bi
+  else if (a =? 11) || (a =? 12) then mkSgi fg bg colors bold ul blink so (set_cs_sgr cs true) true fi bi
+  else if a =? 1 then mkSgi fg bg colors true ul blink so cs dc fi bi
+  else if a =? 4 then mkSgi fg bg colors bold true blink so cs dc fi bi
+  else if a =? 5 then mkSgi fg bg colors bold ul true so cs dc fi bi
+  else if a =? 7 then mkSgi fg bg colors bold ul blink true cs dc fi bi
+  else if a =? 24 then mkSgi fg bg colors bold false blink so cs dc fi bi
+  else if a =? 25 then mkSgi fg bg colors bold ul false so cs dc fi bi
+  else if a =? 27 then mkSgi fg bg colors bold ul blink false cs dc fi bi
+  else if a =? 0 then mkSgi None None colors false false false false cs dc fi bi
   else g.
-Definition sgi_setcolor (a c newcolors : Z) (g : sgi_t) : sgi_t :=
-  let '(mkSgi fg bg _ bold ul blink so cs dc) := g in
-  if a =? 38 then mkSgi (Some c) bg newcolors bold ul blink so cs dc
-  else mkSgi fg (Some c) newcolors bold ul blink so cs dc.
-(* the while loop of sgi_to_attrspec *)
+(* fg, fg_is_index = color, idx   (or bg) *)
+Definition sgi_setcolor (a c newcolors : Z) (idx : bool) (g : sgi_t) : sgi_t :=
+  let '(mkSgi fg bg _ bold ul blink so cs dc fi bi) := g in
+  if a =? 38 then mkSgi (Some c) bg newcolors bold ul blink so cs dc idx bi
+  else mkSgi fg (Some c) newcolors bold ul blink so cs dc fi idx.
 Definition rgb_color (cr cg cb : Z) : Z := Z.shiftl (Z.min cr 255) 16 + Z.shiftl (Z.min cg 255) 8 + Z.min cb 255.
 Fixpoint sgi_loop (l : list Z) (g : sgi_t) : sgi_t :=
   match l with
@@ -398,12 +399,12 @@ Fixpoint sgi_loop (l : list Z) (g : sgi_t) : sgi_t :=
         match r with
         | b :: c :: r' =>
             (* idx + 2 < len(attrs) and attrs[idx + 1] == 5 *)
-            if b =? 5 then sgi_loop r' (sgi_setcolor a (Z.min c 255) (Z.max 256 (g_colors g)) g)
+            if b =? 5 then sgi_loop r' (sgi_setcolor a (Z.min c 255) (Z.max 256 (g_colors g)) true g)
             else
               match r' with
               | cg :: cb :: r'' =>
                   (* idx + 4 < len(attrs) and attrs[idx + 1] == 2 *)
-                  if b =? 2 then sgi_loop r'' (sgi_setcolor a (rgb_color c cg cb) 16777216 g)
+                  if b =? 2 then sgi_loop r'' (sgi_setcolor a (rgb_color c cg cb) 16777216 false g)
                   else sgi_loop r g
               | _ => sgi_loop r g
               end
@@ -430,16 +431,27 @@ Definition mk_attrspec (fg bg : oz) (colors : Z) (bold ul blink so : bool) : res
     else Ok (Some (mkAttr fg bg (if is_none fg && is_none bg then 1 else colors) bold ul blink so))
   else Err OtherError.
 
+(* a true colour attrspec holds rgb values only: palette indexes are looked up in _COLOR_VALUES_256 *)
+Definition palette_rgb (c : oz) (is_index : bool) : result oz :=
+  match c with
+  | Some n => if is_index then do v <- get_index color_values_256_gen n; Ok (Some v) else Ok (Some n)
+  | None => Ok None
+  end.
+
 (* TermCanvas.sgi_to_attrspec(attrs, fg, bg, attributes, prev_colors), with its side effects *)
 Definition sgi_to_attrspec (s : st) (attrs : list Z) (fg bg : oz) (bold ul blink so : bool) (prev_colors : Z)
   : result (st * option attr) :=
-  let g := sgi_loop attrs (mkSgi fg bg prev_colors bold ul blink so (cset s) (m_display_ctrl (modes s))) in
+  let idx0 := negb (prev_colors =? 16777216) in
+  let g := sgi_loop attrs (mkSgi fg bg prev_colors bold ul blink so (cset s) (m_display_ctrl (modes s)) idx0 idx0) in
   let s := with_modes (with_cset s (g_cs g)) (set_m_display_ctrl (modes s) (g_dc g)) in
   let fg := match g_fg g with
             | Some f => if g_bold g && (g_colors g =? 16) && (f <? 8) then Some (f + 8) else Some f
             | None => None
             end in
-  do a <- mk_attrspec fg (g_bg g) (g_colors g) (g_bold g) (g_ul g) (g_blink g) (g_so g);
+  do fb <- (if g_colors g =? 16777216 then
+              do fg' <- palette_rgb fg (g_fgi g); do bg' <- palette_rgb (g_bg g) (g_bgi g); Ok (fg', bg')
+            else Ok (fg, g_bg g));
+  do a <- mk_attrspec (fst fb) (snd fb) (g_colors g) (g_bold g) (g_ul g) (g_blink g) (g_so g);
   Ok (s, a).
 
 (* TermCanvas.reverse_attrspec(attrspec, undo) *)
@@ -453,8 +465,6 @@ Definition reverse_attrspec (a : option attr) (undo : bool) : attr :=
 Definition unbright (a : attr) (c : oz) : oz :=
   match c with Some n => Some (if (8 <=? n) && (a_colors a =? 16) then n - 8 else n) | None => None end.
 Definition csi_set_attr (s : st) (attrs : list Z) : result st :=
-  do lst <- get_index attrs (-1);
-  let s := if lst =? 0 then with_attrspec s None else s in
   do r <- match attrspec s with
           | None => sgi_to_attrspec s attrs None None false false false false 1
           | Some a => sgi_to_attrspec s attrs (unbright a (a_fg a)) (unbright a (a_bg a))
@@ -585,9 +595,8 @@ Fixpoint tab_loop (fuel : nat) (s : st) (x : Z) : result (st * Z) :=
   | O => Err RuntimeErrorK          (* out of fuel: never, the loop runs fewer than width times *)
   | S k =>
       if x <? width s - 1 then
-        do s' <- set_char s [32] (fst (cur s)) (snd (cur s));
-        do b <- is_tabstop s' (x + 1);
-        if b then Ok (s', x + 1) else tab_loop k s' (x + 1)
+        do b <- is_tabstop s (x + 1);
+        if b then Ok (s, x + 1) else tab_loop k s (x + 1)
       else Ok (s, x)
   end.
 Definition tab (s : st) : result st :=
